@@ -173,6 +173,7 @@ func TestGrid(t *testing.T) {
 	}{{"cmpp", 0, "a", 1}, {"cmpp", 8, "中", 2}, {"cmpp", 9, "中", 2}, {"cmpp", 15, "a", 1}, {"cmpp", 15, "中", 2},
 		{"smpp", 0, "a", 1}, {"smpp", 1, "a", 1}, {"smpp", 3, "é", 1}, {"smpp", 8, "中", 2}, {"smpp", 99, "a", 1}, {"smpp", 99, "[", 2}, {"smpp", 7, "a", 2},
 		// contents made of multi-unit characters only: every part ends early, so the part count exceeds ceil(units/capacity)
+		{"smpp", 99, "é", 1}, {"smpp", 0, "é", 1}, {"smpp", 3, "é", 1}, // one unit, two UTF-8 octets: byte length far above the unit count
 		{"smpp", 0, "[", 2}, {"smpp", 0, "€", 2}, {"smpp", 8, "😀", 4}, {"cmpp", 8, "😀", 4}, {"cmpp", 9, "𠮷", 4}, {"cmpp", 15, "😀", 4}, {"cmpp", 15, "中", 2}} {
 		k, ok := splitk.KindOf(pc.proto, pc.coding)
 		if !ok {
